@@ -387,12 +387,164 @@ def randsched(seed, depth=3, ncalls=30):
     return Config(f"rs{seed}", [dev], pulses, calls, init, depth)
 
 
+def limits(depth=2, seqs=(36, 52, 136, 140, 156, -1)):
+    """Acceptance at / just inside / just outside every limit (C01), with the sequence-duration
+    bound hit after automatically inserted delays.  One device per max_sequence_duration."""
+    def dev(ms):
+        return {"nq": 2, "maxSeq": ms, "chs": [
+            {"kind": "ryd", "addr": "G", "clock": 4, "minDur": 16, "maxDur": 120, "maxAmp": 10.0,
+             "maxDet": 50.0, "minAvg": 0.5, "cpjt": 20},
+            {"kind": "ryd", "addr": "G", "clock": 4, "minDur": 16, "bw": 80.0},
+            {"kind": "ram", "addr": "L", "clock": 2, "minDur": 4, "minRet": 0, "fixRet": 0, "maxTg": 2},
+        ]}
+    devs = [dev(ms) for ms in seqs]
+    C = Pulse.ConstantPulse
+    nanwf = CustomWaveform([1.0] * 8 + [float("nan")] + [1.0] * 7)
+    pulses = [
+        C(16, 10.0, 50.0, 0.0),                    # 1 exactly at both limits
+        C(16, 10.0001, 0.0, 0.0),                  # 2 amplitude just over
+        C(16, 1.0, 50.0000004, 0.0),               # 3 detuning rounds inside
+        C(16, 1.0, -50.0000006, 0.0),              # 4 detuning rounds outside
+        C(16, 0.4999, 0.0, 0.0),                   # 5 below min average
+        C(16, 0.5, 0.0, 0.5),                      # 6 at min average, other phase
+        C(15, 1.0, 0.0, 0.0),                      # 7 below min duration
+        C(18, 1.0, 0.0, 0.0),                      # 8 rounded up to 20
+        C(120, 1.0, 0.0, 0.0),                     # 9 at max duration
+        C(121, 1.0, 0.0, 0.0),                     # 10 over max duration
+        Pulse(nanwf, ConstantWaveform(16, 0.0), 0.0),                       # 11 NaN sample
+        Pulse(CustomWaveform([1.0] * 18), ConstantWaveform(18, 0.0), 0.0),  # 12 not resizable
+        C(16, 0.0, 0.0, 0.0),                      # 13 zero amplitude (avg 0 is allowed)
+    ]
+    calls = [{"op": "declare", "nm": 1, "cid": 1, "it": 0}, {"op": "declare", "nm": 2, "cid": 2, "it": 0},
+             {"op": "declare", "nm": 3, "cid": 3, "it": 1}]
+    for p in range(1, 14):
+        calls.append({"op": "add", "nm": 1, "p": p, "proto": "min-delay"})
+    for p in (1, 6, 8, 9, 11):
+        calls.append({"op": "add", "nm": 2, "p": p, "proto": "min-delay"})
+        calls.append({"op": "add", "nm": 1, "p": p, "proto": "no-delay"})
+    for p in (1, 8):
+        calls.append({"op": "add", "nm": 3, "p": p, "proto": "wait-for-all"})
+    calls.append({"op": "delay", "nm": 1, "d": 16, "rest": False})
+    calls.append({"op": "delay", "nm": 2, "d": 20, "rest": True})
+    calls.append({"op": "delay", "nm": 1, "d": 121, "rest": False})
+    calls.append({"op": "align", "nms": [1, 2], "rest": True})
+    calls.append({"op": "target", "nm": 3, "tg": 2})
+    calls.append({"op": "pshift", "phi": 1, "tg": 0, "basis": "ground-rydberg"})
+    return Config("limits", devs, pulses, calls, [1, 2, 3], depth)
+
+
+def fine(depth=3, seeded=False):
+    """Clock 1 / minimum duration 1 channels with slow modulation: short trailing delays inside
+    the fall time of the pulse before them (the backwards scans of _find_add_delay/get_duration)."""
+    devs = [{"nq": 2, "chs": [
+        {"kind": "ryd", "addr": "G", "clock": 1, "minDur": 1, "bw": 40.0},
+        {"kind": "ryd", "addr": "G", "clock": 1, "minDur": 1},
+        {"kind": "ram", "addr": "L", "clock": 1, "minDur": 1, "bw": 20.0, "minRet": 0, "fixRet": 0, "maxTg": 2},
+    ]}]
+    pulses = [Pulse.ConstantPulse(10, 1.0, 0.0, 0.0),
+              Pulse.ConstantDetuning(BlackmanWaveform(20, 0.05), 0.0, 0.5),
+              Pulse.ConstantPulse(5, 2.0, 1.0, 0.0, post_phase_shift=0.5)]
+    calls = [{"op": "declare", "nm": 1, "cid": 1, "it": 0}, {"op": "declare", "nm": 2, "cid": 2, "it": 0},
+             {"op": "declare", "nm": 3, "cid": 3, "it": 1}]
+    for nm in (1, 2, 3):
+        for p in (1, 2, 3):
+            for proto in ("min-delay", "wait-for-all"):
+                if p == 3 and proto == "wait-for-all":
+                    continue
+                calls.append({"op": "add", "nm": nm, "p": p, "proto": proto})
+        for d in (1, 5, 13, 30):
+            calls.append({"op": "delay", "nm": nm, "d": d, "rest": False})
+    calls.append({"op": "add", "nm": 2, "p": 1, "proto": "no-delay"})
+    calls.append({"op": "target", "nm": 3, "tg": 2})
+    calls.append({"op": "target", "nm": 3, "tg": 3})
+    calls.append({"op": "align", "nms": [1, 2], "rest": True})
+    calls.append({"op": "align", "nms": [3, 2], "rest": True})
+    calls.append({"op": "est", "nm": 2, "p": 1, "proto": "min-delay"})
+    init = [1, 2, 3]
+    if seeded:
+        # start from a state where the modulated global channel already carries a pulse
+        init += [k + 1 for k, c in enumerate(calls)
+                 if c["op"] == "add" and c["p"] == 1 and c["proto"] == "min-delay" and c["nm"] == 1]
+    return Config("fine", devs, pulses, calls, init, depth)
+
+
+def retarget(depth=3, full=True):
+    """Local channels over min_retarget_interval x fixed_retarget_t x clock x min duration x rise."""
+    devs = []
+    for (mr, fr) in ((0, 0), (20, 0), (20, 8), (100, 300), (220, 10), (0, 10), (100, 100)):
+        for (clock, mind) in ((1, 1), (4, 16), (4, 4)) if full else ((1, 1), (4, 16)):
+            for bw in (None, 160.0) if full else ((160.0,) if mr == 20 else (None,)):
+                devs.append({"nq": 3, "chs": [
+                    {"kind": "ram", "addr": "L", "clock": clock, "minDur": mind, "bw": bw,
+                     "minRet": mr, "fixRet": fr, "maxTg": 2},
+                    {"kind": "ram", "addr": "G", "clock": 1, "minDur": 1}]})
+    pulses = [Pulse.ConstantPulse(16, 1.0, 0.0, 0.0), Pulse.ConstantPulse(250, 1.0, 0.0, 0.5)]
+    calls = [{"op": "declare", "nm": 1, "cid": 1, "it": 1}, {"op": "declare", "nm": 2, "cid": 2, "it": 0}]
+    for tg in (1, 2, 3, 7):
+        calls.append({"op": "target", "nm": 1, "tg": tg})
+    for p in (1, 2):
+        calls.append({"op": "add", "nm": 1, "p": p, "proto": "min-delay"})
+    calls.append({"op": "add", "nm": 2, "p": 1, "proto": "min-delay"})
+    calls.append({"op": "delay", "nm": 1, "d": 16, "rest": False})
+    calls.append({"op": "delay", "nm": 1, "d": 100, "rest": True})
+    calls.append({"op": "align", "nms": [1, 2], "rest": True})
+    return Config("retarget", devs, pulses, calls, [1, 2], depth)
+
+
+def phasejump(depth=3):
+    """One channel over phase-jump time derived / custom 0 / 20 / 200 x modulation bandwidth,
+    a second channel and phase shifts to create barriers; phases 0 / 0.5 / 1.0 rad."""
+    devs = []
+    for bw in (None, 80.0, 8.0):
+        for cpjt in (None, 0, 20, 200):
+            devs.append({"nq": 2, "chs": [
+                {"kind": "ryd", "addr": "G", "clock": 4, "minDur": 8, "bw": bw, "cpjt": cpjt},
+                {"kind": "ryd", "addr": "G", "clock": 1, "minDur": 1}]})
+    pulses = [Pulse.ConstantPulse(16, 1.0, 0.0, 0.0), Pulse.ConstantPulse(16, 1.0, 0.0, 0.5),
+              Pulse.ConstantPulse(101, 1.0, 0.0, 1.0, post_phase_shift=0.5)]
+    calls = [{"op": "declare", "nm": 1, "cid": 1, "it": 0}, {"op": "declare", "nm": 2, "cid": 2, "it": 0}]
+    for p in (1, 2):
+        for proto in ("min-delay", "no-delay", "wait-for-all"):
+            calls.append({"op": "add", "nm": 1, "p": p, "proto": proto})
+    for p in (1, 3):
+        calls.append({"op": "add", "nm": 2, "p": p, "proto": "no-delay"})
+    calls.append({"op": "delay", "nm": 1, "d": 8, "rest": False})
+    calls.append({"op": "delay", "nm": 1, "d": 100, "rest": False})
+    calls.append({"op": "pshift", "phi": 1, "tg": 0, "basis": "ground-rydberg"})
+    calls.append({"op": "est", "nm": 1, "p": 2, "proto": "min-delay"})
+    return Config("phasejump", devs, pulses, calls, [1, 2], depth)
+
+
 def instances(name, tier):
     """The configurations of family `name` for a tier (each with a unique .name tag)."""
     quick = tier != "thorough"
     if name == "core":
         c = core(3 if quick else 4)
         c.name = f"core-d{c.max_depth}"
+        return [c]
+    if name == "limits":
+        a = limits(2)
+        a.name = "limits-d2"
+        b = limits(3, seqs=(140, -1) if quick else (36, 52, 136, 140, 156, -1))
+        b.name = "limits-d3"
+        return [a, b]
+    if name == "retarget":
+        c = retarget(3 if quick else 4, full=not quick)
+        c.name = f"retarget-d{c.max_depth}"
+        return [c]
+    if name == "fine":
+        a = fine(3)
+        a.name = "fine-d3"
+        b = fine(3 if quick else 4, seeded=True)
+        b.name = f"fine-seeded-d{b.max_depth}"
+        if quick:
+            return [a, b]
+        a = fine(4)
+        a.name = "fine-d4"
+        return [a, b]
+    if name == "phasejump":
+        c = phasejump(3 if quick else 4)
+        c.name = f"{name}-d{c.max_depth}"
         return [c]
     if name == "randsched":
         from .env import seed as _seed
@@ -426,6 +578,10 @@ def instances(name, tier):
 
 def by_tag(tag):
     fam = tag.split("-")[0]
+    if tag.startswith("fine-seeded"):
+        c = fine(int(tag.split("-d")[-1]), seeded=True)
+        c.name = tag
+        return c
     if fam == "randsched":
         sd = int(tag.split("-")[1][1:])
         c = randsched(sd, int(tag.split("-d")[-1]))
